@@ -1,0 +1,56 @@
+//go:build verif
+
+package tlcp
+
+// Hooks for the verification harness (/verif, property C06). Add-only, compiled only with
+// the build tag `verif`.
+
+import (
+	"net"
+	"sync/atomic"
+)
+
+// VerifStreamConn returns a Conn over conn whose record layer is in the state that follows a
+// completed handshake, without running one: version negotiated, handshake marked complete and
+// the given protection installed in both directions with fixed dummy keys, built with the
+// same constructors the cipher-suite table uses. kind: 0 = no protection, 1 = SM4-GCM,
+// 2 = SM4-CBC with HMAC-SM3. Two Conns made with the same kind understand each other.
+// Write, Read, CloseWrite and Close then run the unmodified record code.
+func VerifStreamConn(conn net.Conn, kind int, dynamicRecordSizingDisabled bool) *Conn {
+	c := &Conn{conn: conn, config: &Config{DynamicRecordSizingDisabled: dynamicRecordSizingDisabled}}
+	c.vers = VersionTLCP
+	c.haveVers = true
+	c.in.version, c.out.version = VersionTLCP, VersionTLCP
+	key := []byte("0123456789abcdef")
+	iv := []byte("fedcba9876543210")
+	macKey := []byte("0123456789abcdef0123456789abcdef")
+	switch kind {
+	case 1:
+		c.out.cipher = aeadSM4GCM(key, iv[:noncePrefixLength])
+		c.in.cipher = aeadSM4GCM(key, iv[:noncePrefixLength])
+	case 2:
+		c.out.cipher = cipherSM4(key, iv, false)
+		c.out.mac = macSM3(macKey)
+		c.in.cipher = cipherSM4(key, iv, true)
+		c.in.mac = macSM3(macKey)
+	}
+	atomic.StoreUint32(&c.handshakeStatus, 1)
+	return c
+}
+
+// VerifSetTxCounters sets the two counters maxPayloadSizeForWrite depends on.
+func VerifSetTxCounters(c *Conn, bytesSent, packetsSent int64) {
+	c.bytesSent, c.packetsSent = bytesSent, packetsSent
+}
+
+// VerifTxCounters returns bytesSent and packetsSent.
+func VerifTxCounters(c *Conn) (bytesSent, packetsSent int64) { return c.bytesSent, c.packetsSent }
+
+// VerifMaxPayload calls maxPayloadSizeForWrite (which advances packetsSent as in a write).
+func VerifMaxPayload(c *Conn, applicationData bool) int {
+	typ := recordTypeApplicationData
+	if !applicationData {
+		typ = recordTypeHandshake
+	}
+	return c.maxPayloadSizeForWrite(typ)
+}
